@@ -12,6 +12,7 @@ import (
 	"os"
 	"strings"
 	"sync/atomic"
+	"syscall"
 	"time"
 
 	"verifharness/vh"
@@ -66,16 +67,28 @@ func errClass(err error) string {
 	return "err:syntax"
 }
 
-// watchdog: a decode that runs for more than 10 s is reported and the process exits.
+// watchdog: a decode that runs for more than 10 s of wall-clock time AND during which the process has burnt more than
+// 5 s of CPU time is reported as a hang and the process exits; a decode stalled for 120 s is reported in any case.
+// The CPU condition keeps a starved process (many checks sharing the machine) from being reported as a decoder hang.
 var busySince atomic.Int64
+var busyCPU atomic.Int64
 var busyWhat atomic.Value
+
+func cpuNow() int64 {
+	var ru syscall.Rusage
+	if syscall.Getrusage(syscall.RUSAGE_SELF, &ru) != nil {
+		return 0
+	}
+	return ru.Utime.Nano() + ru.Stime.Nano()
+}
 
 func startWatchdog(rep *vh.Report) {
 	go func() {
 		for {
 			time.Sleep(500 * time.Millisecond)
 			t := busySince.Load()
-			if t != 0 && time.Now().UnixNano()-t > int64(10*time.Second) {
+			wall := time.Now().UnixNano() - t
+			if t != 0 && wall > int64(10*time.Second) && (cpuNow()-busyCPU.Load() > int64(5*time.Second) || wall > int64(120*time.Second)) {
 				w, _ := busyWhat.Load().(string)
 				rep.Add(vh.Case{Kind: "violation", Key: "C08", Op: w, Detail: "decoder did not terminate within 10 s"})
 				rep.Write(*out)
@@ -96,6 +109,7 @@ func termWire(t rdf.Term, label func(rdf.BlankNode) string) string {
 // goDecode runs the real decoder of pkg (turtle | trig | nt | nq) over the bytes.
 func goDecode(pkg, base string, b []byte) (res result) {
 	busyWhat.Store(pkg + " " + vh.X(b))
+	busyCPU.Store(cpuNow())
 	busySince.Store(time.Now().UnixNano())
 	defer busySince.Store(0)
 	defer func() {
